@@ -21,7 +21,7 @@ func init() {
 			"C01.6 the address installed in a permission/binding is decoded into storage local to the installing invocation (no aliasing with later decodes, so the entry expires under its own key); " +
 			"C01.7 (=C07.1) permission timers are armed only from the permission timeout and channel timers only from the channel timeout (a swap lets one outlive its configured lifetime); " +
 			"C01.8 every listener's read loop runs on the allocation manager that was created from that listener's own configuration (its PermissionHandler and relay generator), not on a manager picked from a table; " +
-			"C01.9 (=C02.3) the permission key FingerprintAddr is a canonical form of the peer IP (IP.String() or the To16() bytes): two different addresses never share a key, one address in two spellings has one key; " +
+			"C01.9 (=C02.3) the function that keys the permission table (FingerprintAddr, or the key function AddPermission stores under) is a canonical form of the peer IP: evaluated over the three shapes of an IP (4-byte, IPv4-mapped, IPv6) on symbolic bytes, two different addresses never share a key, one address in two spellings has one key, port and zone play no part; " +
 			"C01.5 the expiry closures remove exactly their own entry (RemovePermission(p.Addr) deletes key FingerprintAddr(addr); RemoveChannelBind(c.Number) removes the element with that number).",
 		NotCovered: "that expiry happens at the right instant; the operator's policy; interleavings between the guard and the write.",
 		Run:        runC01,
@@ -388,7 +388,7 @@ func ruleGuardDefs(c *Ctx, rule string) {
 	// GetPermission
 	{
 		fn := w.Func("allocation", "Allocation", "GetPermission")
-		fp := w.Func("ipnet", "", "FingerprintAddr")
+		fp := w.permKeyFn()
 		perms := w.Field("allocation", "Allocation", "permissions")
 		c.Anchor(rule, "GetPermission")
 		ok := false
@@ -414,7 +414,7 @@ func ruleGuardDefs(c *Ctx, rule string) {
 				break
 			}
 			if kc == nil || kc.Call.StaticCallee() != fp || !w.sameKey(kc.Call.Args[0], fn.Params[1]) {
-				why = "lookup key is not FingerprintAddr(addr) of the argument"
+				why = "lookup key is not " + fp.Name() + "(addr) of the argument (the function AddPermission keys the table with)"
 				ok = false
 				break
 			}
@@ -681,7 +681,7 @@ func ruleExpiryRemoves(c *Ctx, rule string) {
 	// RemovePermission deletes FingerprintAddr(addr)
 	{
 		fn := w.Func("allocation", "Allocation", "RemovePermission")
-		fp := w.Func("ipnet", "", "FingerprintAddr")
+		fp := w.permKeyFn()
 		perms := w.Field("allocation", "Allocation", "permissions")
 		c.Anchor(rule, "RemovePermission")
 		ok := false
@@ -724,7 +724,7 @@ func ruleExpiryRemoves(c *Ctx, rule string) {
 		if ok {
 			c.OK(rule, fname(fn), "RemovePermission", w.pos(fn.Pos()), "delete(a.permissions, FingerprintAddr(addr)) whenever that key is present")
 		} else {
-			c.Bad(rule, fname(fn), "RemovePermission", w.pos(fn.Pos()), "does not delete key FingerprintAddr(addr) from the receiver's permissions on every path where it is present")
+			c.Bad(rule, fname(fn), "RemovePermission", w.pos(fn.Pos()), "does not delete key "+fp.Name()+"(addr) — the function AddPermission keys the table with — from the receiver's permissions on every path where it is present")
 		}
 	}
 	// RemoveChannelBind: the store that shrinks channelBindings is on the Number==number edge
@@ -1231,4 +1231,39 @@ func (w *World) parallelManagers(use *ssa.IndexAddr, connRoot ssa.Value, mk *ssa
 		return false, ""
 	}
 	return true, fmt.Sprintf("managers are created up front into a local slice parallel to the configurations (element j from configuration j, %d store(s)); the loop for configuration i runs on element i", nStores)
+}
+
+// permKeyFn: the function that keys the permission table: the callee that computes, from the
+// permission's own address, the key AddPermission stores under — ipnet.FingerprintAddr, or a
+// key function of the module taking the address alone (then subject to the same canonical-form
+// obligation, C01.9). FingerprintAddr when AddPermission shows nothing else.
+func (w *World) permKeyFn() *ssa.Function {
+	fp := w.Func("ipnet", "", "FingerprintAddr")
+	add := w.FuncOpt("allocation", "Allocation", "AddPermission")
+	if add == nil {
+		return fp
+	}
+	perms := w.Field("allocation", "Allocation", "permissions")
+	res := fp
+	w.eachInstr(add, func(in ssa.Instruction) {
+		mu, ok := in.(*ssa.MapUpdate)
+		if !ok {
+			return
+		}
+		if _, f, isL := fieldLoad(mu.Map); !isL || f != perms {
+			return
+		}
+		kc, _ := callOf(w.resolveLoad(mu.Key))
+		if kc == nil || kc.Call.StaticCallee() == nil || len(kc.Call.Args) != 1 {
+			return
+		}
+		h := kc.Call.StaticCallee()
+		if !w.IsMod[h] || len(h.Params) != 1 || h.Params[0].Type().String() != "net.Addr" {
+			return
+		}
+		if _, f, isL := fieldLoad(w.resolveLoad(kc.Call.Args[0])); isL && f.Name() == "Addr" {
+			res = h
+		}
+	})
+	return res
 }
